@@ -4,6 +4,7 @@ import Cardutil.Model.Vbs
 import Cardutil.Model.Card
 import Cardutil.Model.PinBlock
 import Cardutil.Model.Des
+import Cardutil.Model.Aes
 import Cardutil.WireIso
 import Cardutil.Model.Info
 import Cardutil.Model.Param
@@ -324,6 +325,25 @@ def process (line : String) : String :=
           (Des.tdesEcb true key enc).bind (fun back =>
             (Pin.iso4FromBytes back).bind (fun p => .ok s!"{toHex clear} {toHex enc} {toDotted p}")))))
     | _, _, _ => "bad-op"
+  | ["pin.enc4aes", pin, rnd, key] =>
+    -- format 4 under the AES mix-in: clear block, AES encryption (Model/Aes.lean), inverse cipher, PIN read back
+    match parseDotted pin, rnd.toNat?, parseHex key with
+    | some pin, some r, some key =>
+      renderOut id ((Pin.iso4ToBytes pin r).bind (fun clear =>
+        match Aes.encryptBlock key clear with
+        | none => .escape .valueError
+        | some enc =>
+          match Aes.decryptBlock key enc with
+          | none => .escape .valueError
+          | some back => (Pin.iso4FromBytes back).bind (fun p => .ok s!"{toHex clear} {toHex enc} {toDotted p}")))
+    | _, _, _ => "bad-op"
+  | ["aes.ecb", dir, key, data] =>
+    match parseHex key, parseHex data with
+    | some key, some data =>
+      (match (if dir == "dec" then Aes.ecbDecrypt key data else Aes.ecbEncrypt key data) with
+       | some out => s!"ok {toHex out}"
+       | none => "escape:valueError")
+    | _, _ => "bad-op"
   | ["pvv.tdes", pin, idx, pan, key] =>
     match parseDotted pin, parseDotted idx, parseDotted pan, parseHex key with
     | some pin, some idx, some pan, some key =>
